@@ -20,6 +20,8 @@ int64_t vclock_get();
 void vclock_real_sleep_us(unsigned us);
 // real monotonic time in nanoseconds (for harness-side timeouts)
 int64_t vclock_real_ns();
+// real wall-clock time (CLOCK_REALTIME) in nanoseconds, for absolute pthread deadlines
+int64_t vclock_real_wall_ns();
 }
 
 // default start of the virtual time: 2026-09-22 00:00:00 UTC
